@@ -2,6 +2,7 @@
 import z3
 from pyvc import z as Z
 from pyvc.values import *   # noqa
+from pyvc.values import unbox_int
 from pyvc.engine import Contract, OpaqueClass
 from pyvc.loops import LoopSpec
 from pyvc import models as M
@@ -44,7 +45,9 @@ def register(E):
     E.externals['next:itertools.count'] = next_req_id
 
     def int2hexguid_model(I, ctx, n):
-        return VStr(Z.func('int2hexguid', Z.Int, Z.Str)(TInt.to_z(I.resolve(ctx, n))))
+        n = I.resolve(ctx, n)
+        nz = unbox_int(Z.simp(n.z)) if isinstance(n, VObj) else TInt.to_z(n)      # read back from an attribute: boxed
+        return VStr(Z.func('int2hexguid', Z.Int, Z.Str)(nz))
     E.add_contract(Contract('clastic.utils.int2hexguid', trusted=True, model=int2hexguid_model,
                             note='call-site summary: a pure function of the integer id (sha1 hexdigest prefix); never raises'))
 
